@@ -7,6 +7,7 @@ from typing import Any
 
 from gallia.power_supply.base import BasePowerSupplyDriver
 from gallia.power_supply.exceptions import OperationNotSupportedError
+from gallia.transports import TargetURI
 from gallia.utils import strtobool
 
 
@@ -16,6 +17,13 @@ class HMC804(BasePowerSupplyDriver):
     """
 
     PRODUCT_ID = "hmc804"
+
+    def __init__(self, target: TargetURI, timeout: float | None) -> None:
+        super().__init__(target, timeout)
+        # The channel selection (INST OUTx) is global state of the device;
+        # the selection and the command referring to it must not be separated
+        # by the selection of another task.
+        self._lock = asyncio.Lock()
 
     async def _connect(
         self,
@@ -50,10 +58,22 @@ class HMC804(BasePowerSupplyDriver):
         await self._close_conn(writer)
 
     async def _send_multi(self, data_list: list[str]) -> None:
-        _, writer = await self._connect()
-        for datum in data_list:
-            await self._send_line(writer, datum)
-        await self._close_conn(writer)
+        async with self._lock:
+            _, writer = await self._connect()
+            for datum in data_list:
+                await self._send_line(writer, datum)
+            await self._close_conn(writer)
+
+    async def _request_multi(self, data_list: list[str]) -> str:
+        """Sends all lines over one connection and returns the response to the last one."""
+        async with self._lock:
+            reader, writer = await self._connect()
+            for datum in data_list:
+                await self._send_line(writer, datum)
+
+            resp = await self._recv_line(reader)
+            await self._close_conn(writer)
+            return resp
 
     async def get_ident(self) -> str:
         cmd = "*IDN?"
@@ -72,10 +92,11 @@ class HMC804(BasePowerSupplyDriver):
         raise OperationNotSupportedError
 
     async def get_current(self, channel: int) -> float:
-        cmd = f"INST OUT{channel:d}"
-        await self._send(cmd)
-        cmd = "CURR?"
-        return float(await self._request(cmd))
+        cmds = [
+            f"INST OUT{channel:d}",
+            "CURR?",
+        ]
+        return float(await self._request_multi(cmds))
 
     async def set_current(self, channel: int, value: float) -> None:
         cmds = [
@@ -85,10 +106,11 @@ class HMC804(BasePowerSupplyDriver):
         await self._send_multi(cmds)
 
     async def get_voltage(self, channel: int) -> float:
-        cmd = f"INST OUT{channel:d}"
-        await self._send(cmd)
-        cmd = "VOLT?"
-        return float(await self._request(cmd))
+        cmds = [
+            f"INST OUT{channel:d}",
+            "VOLT?",
+        ]
+        return float(await self._request_multi(cmds))
 
     async def set_voltage(self, channel: int, value: float) -> None:
         cmds = [
@@ -98,10 +120,11 @@ class HMC804(BasePowerSupplyDriver):
         await self._send_multi(cmds)
 
     async def get_output(self, channel: int) -> bool:
-        cmd = f"INST OUT{channel:d}"
-        await self._send(cmd)
-        cmd = "OUTP:STAT?"
-        return strtobool(await self._request(cmd))
+        cmds = [
+            f"INST OUT{channel:d}",
+            "OUTP:STAT?",
+        ]
+        return strtobool(await self._request_multi(cmds))
 
     async def set_output(self, channel: int, enabled: bool) -> None:
         cmds = [
